@@ -16,6 +16,10 @@ def run(ctx):
         ops_nf.case_query(ctx, s)
         if i % 3 == 0:
             ops_nf.case_query_base(ctx, s)
+        if i % 4 == 1:
+            # in place, on repeated labels whose rows disagree on the condition
+            ops_nf.case_query_base(ctx, Subject(ctx, nrows=ctx.rng.randint(4, 8)), inplace=True,
+                                   label_pattern=ctx.rng.choice(["dup_unsorted", "dup_sorted", "desc_dups"]))
         if i % 4 == 0:
             ops_nf.case_query_mixed(ctx, s)
         if i % 3 == 1:
